@@ -118,19 +118,40 @@ func c16RandDoc(rnd *rand.Rand, fmtName string, blocks int) wpw.Doc {
 				how = "outline" // the fixed heading styles are not part of a document with its own sheet
 			}
 			d.Body = append(d.Body, wpw.Block{K: "H", Ch: c16RandChildren(rnd, fmtName, 2, 2), Lvl: 1 + rnd.Intn(map[string]int{"docx": 9, "odt": 10}[fmtName]), How: how, Tb: noTbl})
-		case 3: // a run of list items: starts at depth 0, deepens by at most one
-			num := []string{"bullet", "decimal"}[rnd.Intn(2)]
-			lvl := 0
-			for k, n := 0, 1+rnd.Intn(5); k < n; k++ {
-				if k > 0 {
-					lvl = rnd.Intn(lvl + 2)
-					if lvl > 8 {
-						lvl = 8
+		case 3: // a run of list items: a tree written as depths - may start deep, jump levels,
+			// contain empty items and (ODT) a paragraph after a nested list
+			num := []string{"bullet", "decimal", "decimalR"}[rnd.Intn(3)]
+			open := map[int]bool{} // depths whose item (with a paragraph of its own) is still open
+			prev := -1
+			for k, n := 0, 1+rnd.Intn(6); k < n; k++ {
+				lvl := rnd.Intn(4)
+				how := ""
+				switch r := rnd.Intn(8); {
+				case r == 0:
+					how = "emp"
+				case r == 1 && fmtName == "odt":
+					how = "wrapp"
+				case r <= 3 && fmtName == "odt":
+					// continuation paragraph of a still open, shallower item
+					for l := prev - 1; l >= 0; l-- {
+						if open[l] {
+							lvl, how = l, "cont"
+							break
+						}
 					}
 				}
-				d.Body = append(d.Body, wpw.Block{K: "LI", Ch: c16RandChildren(rnd, fmtName, 2, 3), Lvl: lvl, Num: num, Tb: noTbl})
+				for l := range open {
+					if l > lvl {
+						delete(open, l)
+					}
+				}
+				if how != "cont" {
+					open[lvl] = true
+				}
+				prev = lvl
+				d.Body = append(d.Body, wpw.Block{K: "LI", Ch: c16RandChildren(rnd, fmtName, 2, 3), Lvl: lvl, Num: num, How: how, Tb: noTbl})
 			}
-			// the next block must not continue this list at depth > 0: force a non-list block
+			// a non-list block ends the run
 			d.Body = append(d.Body, wpw.Block{K: "P", Ch: c16RandChildren(rnd, fmtName, 1, 1), Tb: noTbl})
 		default:
 			d.Body = append(d.Body, wpw.Block{K: "TBL", Ch: []wpw.Child{}, Tb: c16RandTable(rnd, 4)})
